@@ -123,6 +123,7 @@ def parse_variant(text, via_path, bom, want=None):
     global TMP
     if TMP is None:
         TMP = tempfile.mkdtemp(prefix="vmon-c06-")
+        harness.add_siblings(TMP)  # a song folder: song.ini, album picture, stems, another chart
     # the path is the caller's: a str (as in the README), a pathlib.Path (as annotated) or any os.PathLike; plain or non-ASCII
     # file names; directly in the directory or reached through a symbolic link
     k = len(text) % 6
